@@ -64,6 +64,7 @@ type c17Case struct {
 	TimeoutNs int64      `json:"timeout_ns"`
 	Cancelled bool       `json:"cancelled"` // call with an already cancelled context (Acquire then never sleeps)
 	Calls     []rateCall `json:"calls"`
+	ArgLen    int        `json:"arg_len"` // plug: size of the byte-slice argument (the IOHandler charges len(request))
 	// conc
 	Threads int    `json:"threads"`
 	Rounds  int    `json:"rounds"`
@@ -726,8 +727,12 @@ func runRate(c *c17Case, out *json.Encoder) error {
 		ctx = cctx
 	}
 	var client *core.Client
+	var plugArgs []interface{}
 	reach := 0
 	reqLen := 0
+	if c.Kind == "plug" && c.ArgLen > 0 {
+		plugArgs = []interface{}{make([]byte, c.ArgLen)}
+	}
 	if c.Kind == "plug" {
 		client = core.NewClient("mock://c17")
 		client.Use(l)
@@ -750,7 +755,7 @@ func runRate(c *c17Case, out *json.Encoder) error {
 			ictx := core.WithContext(ctx, cc)
 			var res []interface{}
 			co.B = time.Now().UnixNano()
-			res, err = client.InvokeContext(ictx, "f", nil)
+			res, err = client.InvokeContext(ictx, "f", plugArgs)
 			co.A = time.Now().UnixNano()
 			co.Reach, co.Len = reach, reqLen
 			if err == nil && !(len(res) == 1 && res[0] == "ok") {
